@@ -9,6 +9,7 @@ Arguments N.mul : simpl never.
 Arguments N.div : simpl never.
 Arguments N.modulo : simpl never.
 Arguments N.min : simpl never.
+Arguments nthN {A} l i d : simpl never.
 
 (* ------------------------------------------------------------------ lists *)
 Lemma memN_In x l : memN x l = true <-> In x l.
@@ -371,4 +372,778 @@ Proof.
   - rewrite D, Em. reflexivity.
   - intros j Hj. rewrite B, <- Ef in Hj. apply in_app_or in Hj. destruct Hj as [Hj|Hj]; [right | left; exact Hj].
     apply in_rev in Hj. split; [auto | apply head_zombies_flag in Hj; exact Hj].
+Qed.
+
+Definition visible (m : mstate) : bool := match ms_target m with TTerm _ => true | _ => false end.
+
+(** what any multi-level call does to the allocation part: nothing, or reap the head zombies *)
+Record MTrans (m m' : mstate) (reaped : bool) : Prop := mkMT {
+  mt_core : CoreInv m';
+  mt_order : ms_order m' = if reaped then drop_while (zflag m) (ms_order m) else ms_order m;
+  mt_zflag : forall j, In j (ms_order m') -> zflag m' j = zflag m j;
+  mt_length : length (ms_members m') = length (ms_members m);
+  mt_free : forall j, In j (ms_free m') -> In j (ms_free m) \/ (In j (ms_order m) /\ zflag m j = true);
+  mt_visible : visible m' = visible m }.
+
+Lemma MTrans_same m m' : CoreInv m -> same_core m m' -> visible m' = visible m ->
+  MTrans m m' false.
+Proof.
+  intros CI Hs Hv. pose proof Hs as (Em & Ef & Eo). constructor; auto.
+  - eapply same_core_inv; eauto.
+  - intros j _. unfold zflag. rewrite Em. reflexivity.
+  - rewrite Em. reflexivity.
+  - intros j Hj. left. rewrite Ef. exact Hj.
+Qed.
+
+Lemma MTrans_post m m2 m3 r : MTrans m m2 r -> same_core m2 m3 ->
+  visible m3 = visible m2 -> MTrans m m3 r.
+Proof.
+  intros [A1 A2 A3 A4 A5 A7] Hs Hv. pose proof Hs as (Em & Ef & Eo).
+  constructor; unfold zflag in *; rewrite <- ?Em, <- ?Ef, <- ?Eo, ?Hv; auto.
+  eapply same_core_inv; eauto.
+Qed.
+
+Lemma MTrans_trans m m1 m2 r : MTrans m m1 false -> MTrans m1 m2 r -> MTrans m m2 r.
+Proof.
+  intros [A1 A2 A3 A4 A5 A7] [B1 B2 B3 B4 B5 B7].
+  assert (Hdw : drop_while (zflag m1) (ms_order m1) = drop_while (zflag m) (ms_order m)).
+  { rewrite A2. apply drop_while_ext. intros x Hx. apply A3. rewrite A2. exact Hx. }
+  assert (Hsub : forall j, In j (ms_order m2) -> In j (ms_order m1)).
+  { intros j Hj. rewrite B2 in Hj. destruct r; [eapply drop_while_incl; eauto | exact Hj]. }
+  constructor; auto.
+  - rewrite B2. destruct r; [exact Hdw | exact A2].
+  - intros j Hj. rewrite B3 by exact Hj. apply A3, Hsub, Hj.
+  - congruence.
+  - intros j Hj. apply B5 in Hj. destruct Hj as [Hj|[Hj Hz]]; [apply A5 in Hj; exact Hj|].
+    right. rewrite <- A2, <- A3; auto.
+  - congruence.
+Qed.
+
+Section WithTerm2.
+  Variable W H : N.
+  Variable fails : N -> bool.
+
+  Lemma ms_attempt_visible m force extra now : ms_attempt W m force extra now = true -> visible m = true.
+  Proof. unfold ms_attempt, visible. destruct (ms_target m); auto. Qed.
+
+  Lemma ms_draw_trans m force extra now c : CoreInv m ->
+    MTrans m (fst4 (ms_draw W H fails m force extra now c)) (ms_attempt W m force extra now).
+  Proof.
+    intros CI. destruct (ms_target m) as [|tg|i] eqn:Ht.
+    - rewrite ms_draw_hidden by (rewrite Ht; discriminate). unfold ms_attempt. rewrite Ht.
+      apply MTrans_same; auto. repeat split.
+    - rewrite (ms_draw_unfold W H fails m force extra now c tg Ht). unfold ms_attempt. rewrite Ht.
+      fold (ms_has_text m extra). cbn zeta.
+      destruct (fst (tt_allow _ _ now)) eqn:Hal; cbn [negb].
+      + unfold fst4; cbn [fst].
+        match goal with |- context [fold_left ms_remove_idx _ ?m0] => set (m0' := m0) end.
+        assert (Hs : same_core m m0') by (repeat split).
+        destruct (ms_reap_spec m0' m CI Hs) as (A & B & C & D & E). cbn zeta in *.
+        set (m2 := fold_left ms_remove_idx (head_zombies (ms_order m) (ms_members m)) m0') in *.
+        destruct (fold_remove_other (head_zombies (ms_order m) (ms_members m)) m0') as (Fa & Fo & Fz & Ft).
+        fold m2 in Fa, Fo, Fz, Ft.
+        assert (Hv2 : visible m2 = visible m) by (unfold visible; rewrite Ft, Ht; reflexivity).
+        assert (T2 : MTrans m m2 true).
+        { constructor; auto. intros j Hj. unfold zflag. rewrite C by exact Hj. reflexivity. }
+        destruct (ms_has_text m extra); [exact T2|].
+        eapply MTrans_post; [exact T2 | repeat split |].
+        unfold visible. cbn. rewrite Ft. reflexivity.
+      + unfold fst4; cbn [fst]. apply MTrans_same; auto; repeat split.
+        unfold visible. cbn. rewrite Ht. reflexivity.
+    - rewrite ms_draw_hidden by (rewrite Ht; discriminate). unfold ms_attempt. rewrite Ht.
+      apply MTrans_same; auto. repeat split.
+  Qed.
+End WithTerm2.
+
+Section WithTerm3.
+  Variable W H : N.
+  Variable fails : N -> bool.
+
+  Lemma ms_clear_trans m c : CoreInv m -> MTrans m (fst4 (ms_clear W H fails m c)) false.
+  Proof.
+    intros CI. unfold ms_clear. destruct (ms_target m) as [|tg|i] eqn:Ht.
+    - apply MTrans_same; auto; repeat split.
+    - destruct (term_draw W H fails (tt_adjust_clear tg (ms_zombie_lines m)) [] c) as [[[tg2 e] c'] ok].
+      unfold fst4; cbn [fst]. apply MTrans_same; auto; repeat split. unfold visible. cbn. rewrite Ht. reflexivity.
+    - apply MTrans_same; auto; repeat split.
+  Qed.
+
+  (** the draw inside suspend *)
+  Definition suspend_mid (m : mstate) (c : N) : mstate :=
+    let m1 := fst4 (ms_clear W H fails m c) in
+    set_ms_target m1 (match ms_target m1 with
+                      | TTerm tg => TTerm (mktt 0 (tt_rl tg) (tt_align tg) (tt_below tg))
+                      | t => t
+                      end).
+  Definition suspend_attempt (m : mstate) (now c : N) : bool := ms_attempt W (suspend_mid m c) true None now.
+
+  Lemma ms_suspend_trans m ws now c : CoreInv m ->
+    MTrans m (fst (fst (ms_suspend W H fails m ws now c))) (suspend_attempt m now c).
+  Proof.
+    intros CI. unfold ms_suspend, suspend_attempt, suspend_mid.
+    pose proof (ms_clear_trans m c CI) as T1. unfold fst4 in *.
+    destruct (ms_clear W H fails m c) as [[[m1 e1] c1] ok1]. cbn [fst] in *.
+    set (m1' := set_ms_target m1 _).
+    destruct (emit_each fails c1 (map TLine ws)) as [e2 c2].
+    assert (T1' : MTrans m m1' false).
+    { eapply MTrans_post; [exact T1 | repeat split |].
+      unfold visible, m1'. cbn. destruct (ms_target m1); reflexivity. }
+    pose proof (ms_draw_trans W H fails m1' true None now c2 (mt_core _ _ _ T1')) as T2. unfold fst4 in T2.
+    destruct (ms_draw W H fails m1' true None now c2) as [[[m3 e3] c3] ok3]. cbn [fst] in *.
+    eapply MTrans_trans; eauto.
+  Qed.
+
+  Lemma ms_store_trans m idx texts bars : CoreInv m -> In idx (ms_order m) ->
+    MTrans m (ms_store m idx texts bars) false.
+  Proof.
+    intros CI Hi. destruct CI as [A B C D E F]. unfold ms_store.
+    constructor; cbn; auto.
+    - constructor; cbn; auto.
+      + intros j Hj. rewrite updN_length. auto.
+      + rewrite updN_length. exact E.
+      + intros j Hj. rewrite nthN_updN_neq; auto. intros <-. eapply C; eauto.
+    - intros j Hj. unfold zflag. cbn [ms_members set_ms_orphans set_ms_members]. destruct (N.eq_dec idx j) as [<-|Hn].
+      + rewrite nthN_updN_eq; auto.
+      + rewrite nthN_updN_neq; auto.
+    - rewrite updN_length. reflexivity.
+  Qed.
+End WithTerm3.
+
+(* ------------------------------------------------------------------ bars *)
+Definition mslot (x : bar) : option N := match b_target x with TMulti i => Some i | _ => None end.
+Lemma mslot_Some x i : mslot x = Some i <-> b_target x = TMulti i.
+Proof. unfold mslot. destruct (b_target x); split; congruence. Qed.
+
+Definition bars_pres (s s' : sys) : Prop :=
+  forall b, alive s' b = alive s b /\ mslot (get_bar s' b) = mslot (get_bar s b).
+
+Lemma bars_pres_refl s s' : s_bars s' = s_bars s -> bars_pres s s'.
+Proof. intros E b. unfold alive, get_bar. rewrite E. auto. Qed.
+Lemma bars_pres_trans s1 s2 s3 : bars_pres s1 s2 -> bars_pres s2 s3 -> bars_pres s1 s3.
+Proof. intros A B b. destruct (A b), (B b). split; congruence. Qed.
+
+Lemma bars_pres_slot s s' b : bars_pres s s' -> slot_of s' b = slot_of s b /\ is_member s' b = is_member s b.
+Proof.
+  intros P. destruct (P b) as [_ Hm]. unfold slot_of, is_member, mslot in *.
+  destruct (b_target (get_bar s' b)), (b_target (get_bar s b)); try discriminate; auto.
+  injection Hm as ->. auto.
+Qed.
+
+Lemma get_bar_oob s b : (length (s_bars s) <= N.to_nat b)%nat -> get_bar s b = bar_default.
+Proof. intros Hl. unfold get_bar, nthN. apply nth_overflow. exact Hl. Qed.
+Lemma alive_inrange s b : alive s b = true -> (N.to_nat b < length (s_bars s))%nat.
+Proof.
+  intros Ha. destruct (Nat.lt_ge_cases (N.to_nat b) (length (s_bars s))) as [Hl|Hl]; [exact Hl|].
+  unfold alive in Ha. rewrite get_bar_oob in Ha by exact Hl. discriminate.
+Qed.
+Lemma get_upd_same s b f : (N.to_nat b < length (s_bars s))%nat -> get_bar (upd_bar s b f) b = f (get_bar s b).
+Proof. intros Hl. unfold get_bar, upd_bar. cbn. apply nthN_updN_eq. exact Hl. Qed.
+Lemma get_upd_other s b b' f : b <> b' -> get_bar (upd_bar s b f) b' = get_bar s b'.
+Proof. intros Hn. unfold get_bar, upd_bar. cbn. apply nthN_updN_neq. exact Hn. Qed.
+Lemma upd_bar_oob s b f : (length (s_bars s) <= N.to_nat b)%nat -> upd_bar s b f = s.
+Proof. intros Hl. unfold upd_bar. rewrite updN_oob by exact Hl. destruct s; reflexivity. Qed.
+Lemma upd_bar_mp s b f : s_mp (upd_bar s b f) = s_mp s. Proof. reflexivity. Qed.
+Lemma upd_bar_calls s b f : s_calls (upd_bar s b f) = s_calls s. Proof. reflexivity. Qed.
+
+(** an update of the bar record that leaves liveness and multi membership alone *)
+Definition keeps_slot (f : bar -> bar) : Prop := forall x, b_alive (f x) = b_alive x /\ mslot (f x) = mslot x.
+
+Lemma upd_bar_pres s b f : keeps_slot f -> bars_pres s (upd_bar s b f).
+Proof.
+  intros Hf b'. destruct (N.eq_dec b b') as [<-|Hn].
+  - destruct (Nat.lt_ge_cases (N.to_nat b) (length (s_bars s))) as [Hl|Hl].
+    + unfold alive. rewrite get_upd_same by exact Hl. apply Hf.
+    + rewrite upd_bar_oob by exact Hl. auto.
+  - unfold alive. rewrite get_upd_other by exact Hn. auto.
+Qed.
+
+Lemma MInv_core s : MInv s -> CoreInv (s_mp s).
+Proof. intros [A B C D E F G I]. constructor; auto. Qed.
+
+Lemma drop_while_keep {A} (p : A -> bool) l x : In x l -> p x = false -> In x (drop_while p l).
+Proof.
+  induction l as [|y r IH]; cbn; [tauto|]. intros Hi Hp. destruct (p y) eqn:Hy; [|exact Hi].
+  destruct Hi as [->|Hi]; [congruence | auto].
+Qed.
+
+(** any multi-level call, seen from the bars and the abstract list *)
+Lemma trans_sim s s' a r :
+  MInv s -> Refines s a -> bars_pres s s' -> MTrans (s_mp s) (s_mp s') r ->
+  MInv s' /\ Refines s' (a_maybe_reap r a).
+Proof.
+  intros MI RF BP MT. pose proof (MInv_core s MI) as CI.
+  destruct MT as [T1 T2 T3 T4 T5 T7]. destruct MI as [A B C D E F G I].
+  assert (Hkeep : forall i, In i (ms_order (s_mp s)) -> zflag (s_mp s) i = false -> In i (ms_order (s_mp s'))).
+  { intros i Hi Hz. rewrite T2. destruct r; [apply drop_while_keep; assumption | exact Hi]. }
+  assert (Htg : forall b i, b_target (get_bar s' b) = TMulti i -> b_target (get_bar s b) = TMulti i).
+  { intros b i Ht. apply mslot_Some. destruct (BP b) as [_ <-]. apply mslot_Some, Ht. }
+  split.
+  - destruct T1 as [A' B' C' D' E' F'].
+    constructor; auto.
+    + intros b i Ha Ht. destruct (BP b) as [Hal _]. rewrite Hal in Ha. apply Htg in Ht.
+      destruct (G b i Ha Ht) as [Hi Hz]. assert (Hi' := Hkeep i Hi Hz). split; [exact Hi'|].
+      fold (zflag (s_mp s') i). rewrite T3 by exact Hi'. exact Hz.
+    + intros b1 b2 i Ha1 Ha2 Ht1 Ht2. destruct (BP b1) as [H1 _], (BP b2) as [H2 _].
+      rewrite H1 in Ha1. rewrite H2 in Ha2. eauto.
+  - destruct RF as [R1 R2 R3 R4 R5 R6].
+    assert (Hslot : forall b, slot_of s' b = slot_of s b) by (intros b; apply bars_pres_slot, BP).
+    assert (Hmem : forall b, is_member s' b = is_member s b) by (intros b; apply bars_pres_slot, BP).
+    assert (Hal : forall b, alive s' b = alive s b) by (intros b; apply BP).
+    assert (Hmap : map (slot_of s') (a_order a) = map (slot_of s) (a_order a)) by (apply map_ext; auto).
+    destruct r; cbn [a_maybe_reap].
+    + assert (Hdw : ms_order (s_mp s') = map (slot_of s) (drop_while (fun b => memN b (a_dropped a)) (a_order a))).
+      { rewrite T2, R1, drop_while_map. f_equal. apply drop_while_ext. intros b Hb.
+        rewrite R4 by exact Hb. apply R6; exact Hb. }
+      unfold a_reap. constructor; cbn [a_order a_dropped].
+      * rewrite Hdw. apply map_ext. auto.
+      * intros b Hb. rewrite Hmem. apply R2. eapply drop_while_incl; eauto.
+      * intros b Ha Hm. rewrite Hal in Ha. rewrite Hmem in Hm. apply drop_while_keep; [auto|].
+        rewrite R4 by auto. rewrite Ha. reflexivity.
+      * intros b Hb. rewrite Hal. apply R4. eapply drop_while_incl; eauto.
+      * intros b Hb. rewrite Hal. auto.
+      * intros b Hb. rewrite Hal, Hslot. fold (zflag (s_mp s') (slot_of s b)). rewrite T3.
+        -- apply R6. eapply drop_while_incl; eauto.
+        -- rewrite Hdw. apply in_map. exact Hb.
+    + constructor.
+      * rewrite T2, R1, Hmap. reflexivity.
+      * intros b Hb. rewrite Hmem. auto.
+      * intros b Ha Hm. rewrite Hal in Ha. rewrite Hmem in Hm. auto.
+      * intros b Hb. rewrite Hal. auto.
+      * intros b Hb. rewrite Hal. auto.
+      * intros b Hb. rewrite Hal, Hslot. fold (zflag (s_mp s') (slot_of s b)). rewrite T3.
+        -- apply R6. exact Hb.
+        -- rewrite T2, R1. apply in_map. exact Hb.
+Qed.
+
+(* ------------------------------------------------------------------ step = its multi-level calls *)
+Section StepActions.
+  Variable W H : N.
+  Variable fails : N -> bool.
+  Local Notation step_sys := (step_sys W H fails).
+  Local Notation step_out := (step_out W H fails).
+  Local Notation mp_run := (mp_run W H fails).
+  Local Notation op_actions := (op_actions W).
+
+  Lemma bar_draw_mp s b force now :
+    let r := mp_run now (s_mp s) (s_calls s) (draw_actions W s b force) in
+    s_mp (fst (bar_draw W H fails s b force now)) = fst (fst r)
+    /\ (no_own_term s -> s_calls (fst (bar_draw W H fails s b force now)) = snd r
+                         /\ snd (bar_draw W H fails s b force now) = snd (fst r)
+                         /\ s_bars (fst (bar_draw W H fails s b force now)) = s_bars s).
+  Proof.
+    unfold bar_draw, draw_actions. cbn zeta.
+    pose proof (fun (Hn : no_own_term s) => Hn b) as Hb.
+    destruct (b_target (get_bar s b)) as [|tg|idx] eqn:Ht; cbn [mp_run].
+    - cbn. auto.
+    - split.
+      + destruct (tt_allow tg _ now) as [[|] tg1]; cbn [negb]; [|reflexivity].
+        destruct (term_draw W H fails tg1 _ _) as [[[tg2 e] c'] ok]. reflexivity.
+      + intros Hn. exfalso. exact (Hb Hn).
+    - cbn [mp_exec1]. unfold stored_frame.
+      destruct (ms_draw W H fails _ _ None now (s_calls s)) as [[[m2 e] c'] ok].
+      cbn. rewrite app_nil_r. auto.
+  Qed.
+
+  Lemma mp_run_app now acts1 : forall m c acts2,
+    mp_run now m c (acts1 ++ acts2) =
+    let '(m1, e1, c1) := mp_run now m c acts1 in
+    let '(m2, e2, c2) := mp_run now m1 c1 acts2 in (m2, e1 ++ e2, c2).
+  Proof.
+    induction acts1 as [|a r IH]; intros m c acts2; cbn [mp_run app].
+    - destruct (mp_run now m c acts2) as [[m2 e2] c2]. reflexivity.
+    - destruct (mp_exec1 W H fails now m c a) as [[[m1 e1] c1] ok1]. rewrite IH.
+      destruct (mp_run now m1 c1 r) as [[m1' e1'] c1'].
+      destruct (mp_run now m1' c1' acts2) as [[m2 e2] c2]. rewrite app_assoc. reflexivity.
+  Qed.
+
+  Definition keeps_target (f : bar -> bar) : Prop := forall x, b_target (f x) = b_target x.
+
+  Lemma no_own_upd s b f : keeps_target f -> no_own_term s -> no_own_term (upd_bar s b f).
+  Proof.
+    intros Hf Hn b'. destruct (N.eq_dec b b') as [<-|Hd].
+    - destruct (Nat.lt_ge_cases (N.to_nat b) (length (s_bars s))) as [Hl|Hl].
+      + rewrite get_upd_same by exact Hl. rewrite Hf. apply Hn.
+      + rewrite upd_bar_oob by exact Hl. apply Hn.
+    - rewrite get_upd_other by exact Hd. apply Hn.
+  Qed.
+
+  Lemma target_upd s b f : keeps_target f -> b_target (get_bar (upd_bar s b f) b) = b_target (get_bar s b).
+  Proof.
+    intros Hf. destruct (Nat.lt_ge_cases (N.to_nat b) (length (s_bars s))) as [Hl|Hl].
+    - rewrite get_upd_same by exact Hl. apply Hf.
+    - rewrite upd_bar_oob by exact Hl. reflexivity.
+  Qed.
+
+  (** the shape shared by most calls: update the bar record, then BarState::draw *)
+  Lemma upd_draw_mp s b f force now : keeps_target f ->
+    let s1 := upd_bar s b f in
+    let r := mp_run now (s_mp s) (s_calls s) (draw_actions W s1 b force) in
+    let s' := fst (bar_draw W H fails s1 b force now) in
+    s_mp s' = fst (fst r)
+    /\ (no_own_term s -> s_calls s' = snd r /\ snd (bar_draw W H fails s1 b force now) = snd (fst r)
+                         /\ s_bars s' = s_bars s1).
+  Proof.
+    intros Hf. cbn zeta. destruct (bar_draw_mp (upd_bar s b f) b force now) as [A B].
+    split; [exact A|]. intros Hn. apply B. apply no_own_upd; assumption.
+  Qed.
+End StepActions.
+
+Section StepMp.
+  Variable W H : N.
+  Variable fails : N -> bool.
+  Local Notation step_sys := (step_sys W H fails).
+  Local Notation step_out := (step_out W H fails).
+  Local Notation mp_run := (mp_run W H fails).
+  Local Notation op_actions := (op_actions W).
+
+  Definition StepMp (s : sys) (now : N) (acts : list maction) (r : sys * list termop) : Prop :=
+    let x := mp_run now (s_mp s) (s_calls s) acts in
+    s_mp (fst r) = fst (fst x)
+    /\ (no_own_term s -> s_calls (fst r) = snd x /\ snd r = snd (fst x)).
+
+  Lemma StepMp_draw s b f force now : keeps_target f ->
+    StepMp s now (draw_actions W (upd_bar s b f) b force) (bar_draw W H fails (upd_bar s b f) b force now).
+  Proof.
+    intros Hf. destruct (upd_draw_mp W H fails s b f force now Hf) as [A B]. split; [exact A|].
+    intros Hn. destruct (B Hn) as (B1 & B2 & _). auto.
+  Qed.
+
+  Lemma StepMp_draw0 s b force now :
+    StepMp s now (draw_actions W s b force) (bar_draw W H fails s b force now).
+  Proof.
+    destruct (bar_draw_mp W H fails s b force now) as [A B]. split; [exact A|].
+    intros Hn. destruct (B Hn) as (B1 & B2 & _). auto.
+  Qed.
+
+  Lemma StepMp_nil s s' now : s_mp s' = s_mp s -> s_calls s' = s_calls s -> StepMp s now [] (s', []).
+  Proof. intros A B. split; cbn; auto. Qed.
+
+  Lemma StepMp_finish s b k now :
+    StepMp s now (finish_actions W s b k) (bar_finish W H fails s b k now).
+  Proof.
+    unfold bar_finish, finish_actions.
+    change (fun x : bar => match k with
+                           | FAndLeave => _ | FWithMessage m1 => _ | FAndClear => _
+                           | FAbandon => _ | FAbandonWithMessage m2 => _ end) with (finish_upd k).
+    apply StepMp_draw. intros x. destruct k; cbn; destruct (b_len x); reflexivity.
+  Qed.
+
+  Lemma StepMp_pos s b f now :
+    StepMp s now (pos_actions W s b f now) (bar_pos_update W H fails s b f now).
+  Proof.
+    unfold bar_pos_update, pos_actions.
+    destruct (ap_allow (b_ap (get_bar (upd_bar s b (fun x => set_b_pos x (f (b_pos x)))) b)) now) as [[|] ap'].
+    - unfold bar_tick, tick_actions.
+      set (s2 := upd_bar (upd_bar s b _) b _).
+      destruct (upd_draw_mp W H fails s2 b (fun x => set_b_tick x (sat_add64 (b_tick x) 1)) false now) as [A B].
+      { intros x; reflexivity. }
+      split; [exact A|]. intros Hn. destruct B as (B1 & B2 & _); [|auto].
+      apply no_own_upd; [intros x; reflexivity|]. apply no_own_upd; [intros x; reflexivity | exact Hn].
+    - apply StepMp_nil; reflexivity.
+  Qed.
+End StepMp.
+
+Section StepMp2.
+  Variable W H : N.
+  Variable fails : N -> bool.
+  Local Notation step_sys := (step_sys W H fails).
+  Local Notation step_out := (step_out W H fails).
+  Local Notation mp_run := (mp_run W H fails).
+  Local Notation op_actions := (op_actions W).
+
+  Lemma bar_draw_target s b force now idx :
+    b_target (get_bar s b) = TMulti idx ->
+    s_bars (fst (bar_draw W H fails s b force now)) = s_bars s.
+  Proof.
+    intros Ht. unfold bar_draw. rewrite Ht.
+    destruct (ms_draw W H fails _ _ None now (s_calls s)) as [[[m2 e] c'] ok]. reflexivity.
+  Qed.
+
+  Lemma bar_draw_target_kind s b force now :
+    match b_target (get_bar s b) with
+    | TMulti idx => b_target (get_bar (fst (bar_draw W H fails s b force now)) b) = TMulti idx
+    | _ => forall idx, b_target (get_bar (fst (bar_draw W H fails s b force now)) b) <> TMulti idx
+    end.
+  Proof.
+    destruct (b_target (get_bar s b)) as [|tg|idx] eqn:Ht.
+    - unfold bar_draw. rewrite Ht. cbn. rewrite Ht. discriminate.
+    - unfold bar_draw. rewrite Ht.
+      destruct (Nat.lt_ge_cases (N.to_nat b) (length (s_bars s))) as [Hl|Hl].
+      + destruct (tt_allow tg _ now) as [[|] tg1]; cbn [negb].
+        * destruct (term_draw W H fails tg1 _ _) as [[[tg2 e] c'] ok]. cbn [fst].
+          intros idx. unfold get_bar. cbn [s_bars set_s_calls]. fold (get_bar (upd_bar s b (fun x => set_b_target x (TTerm tg2))) b).
+          rewrite get_upd_same by exact Hl. discriminate.
+        * cbn [fst]. intros idx. rewrite get_upd_same by exact Hl. discriminate.
+      + rewrite get_bar_oob in Ht by exact Hl. discriminate.
+    - unfold get_bar. rewrite (bar_draw_target s b force now idx Ht). exact Ht.
+  Qed.
+
+  Theorem step_mp s now o :
+    StepMp W H fails s now (op_actions s now o) (step_sys s now o, step_out s now o).
+  Proof.
+    unfold step_sys, step_out.
+    destruct o; cbn [step op_actions fst snd];
+      try (rewrite <- surjective_pairing);
+      try (apply StepMp_draw; intros x; reflexivity);
+      try apply StepMp_draw0; try apply StepMp_finish; try apply StepMp_pos;
+      try (apply StepMp_nil; reflexivity).
+    - (* OPrintln *)
+      unfold bar_println. destruct (b_target (get_bar s b)) as [|tg|idx] eqn:Ht.
+      + apply StepMp_nil; reflexivity.
+      + split.
+        * destruct (term_draw W H fails tg _ _) as [[[tg2 e] c'] ok]. reflexivity.
+        * intros Hn. specialize (Hn b). rewrite Ht in Hn. tauto.
+      + cbn [mp_run mp_exec1]. unfold StepMp, stored_frame. cbn [MultiSpec.mp_run mp_exec1].
+        destruct (ms_draw W H fails _ true None now (s_calls s)) as [[[m2 e] c'] ok].
+        cbn. rewrite app_nil_r. auto.
+    - (* OSuspend *)
+      unfold bar_suspend. destruct (b_target (get_bar s b)) as [|tg|idx] eqn:Ht.
+      + unfold StepMp. cbn [MultiSpec.mp_run mp_exec1].
+        destruct (emit_each fails (s_calls s) (map TLine ws)) as [e c']. cbn. rewrite app_nil_r. auto.
+      + split; [|intros Hn; specialize (Hn b); rewrite Ht in Hn; tauto].
+        destruct (term_draw W H fails tg [] (s_calls s)) as [[[tg1 e1] c1] ok1].
+        destruct (emit_each fails c1 (map TLine ws)) as [e2 c2].
+        set (s1 := set_s_calls (upd_bar s b (fun x => set_b_target x (TTerm tg1))) c2).
+        destruct (bar_draw W H fails s1 b true now) as [s2 e3] eqn:Hd. cbn [fst MultiSpec.mp_run].
+        pose proof (bar_draw_mp W H fails s1 b true now) as [A _]. rewrite Hd in A. cbn [fst] in A.
+        rewrite A. unfold draw_actions.
+        assert (Hl : (N.to_nat b < length (s_bars s))%nat).
+        { destruct (Nat.lt_ge_cases (N.to_nat b) (length (s_bars s))) as [Hl|Hl]; [exact Hl|].
+          rewrite get_bar_oob in Ht by exact Hl. discriminate. }
+        replace (b_target (get_bar s1 b)) with (TTerm tg1); [reflexivity|].
+        unfold s1, get_bar. cbn [s_bars set_s_calls].
+        fold (get_bar (upd_bar s b (fun x => set_b_target x (TTerm tg1))) b).
+        rewrite get_upd_same by exact Hl. reflexivity.
+      + unfold StepMp. cbn [MultiSpec.mp_run mp_exec1].
+        destruct (ms_suspend W H fails (s_mp s) ws now (s_calls s)) as [[m2 e] c'].
+        cbn. rewrite app_nil_r. auto.
+    - (* ODrop *)
+      unfold bar_drop. unfold StepMp. rewrite mp_run_app.
+      destruct (finished (get_bar s b)) eqn:Hf.
+      + cbn [MultiSpec.mp_run]. unfold mark_zombie.
+        destruct (b_target (get_bar s b)) as [|tg|idx]; cbn; auto.
+      + pose proof (StepMp_finish W H fails s b (b_on_finish (get_bar s b)) now) as [A B].
+        destruct (bar_finish W H fails s b (b_on_finish (get_bar s b)) now) as [s1 e] eqn:Hbf.
+        cbn [fst snd] in *.
+        destruct (mp_run now (s_mp s) (s_calls s) (finish_actions W s b (b_on_finish (get_bar s b)))) as [[m1 e1] c1].
+        cbn [fst snd] in *.
+        assert (Hk : match b_target (get_bar s b) with
+                     | TMulti idx => b_target (get_bar s1 b) = TMulti idx
+                     | _ => forall idx, b_target (get_bar s1 b) <> TMulti idx
+                     end).
+        { unfold bar_finish in Hbf.
+          pose proof (bar_draw_target_kind (upd_bar s b (finish_upd (b_on_finish (get_bar s b)))) b true now) as K.
+          rewrite target_upd in K by (intros x; destruct (b_on_finish (get_bar s b)); cbn; destruct (b_len x); reflexivity).
+          unfold finish_upd in K. rewrite Hbf in K. exact K. }
+        unfold mark_zombie.
+        destruct (b_target (get_bar s b)) as [|tg|idx].
+        * destruct (b_target (get_bar s1 b)) as [|tg'|idx'] eqn:Ht1; [| |exfalso; eapply Hk; reflexivity];
+            cbn; rewrite app_nil_r; split; auto.
+        * destruct (b_target (get_bar s1 b)) as [|tg'|idx'] eqn:Ht1; [| |exfalso; eapply Hk; reflexivity];
+            cbn; rewrite app_nil_r; split; auto.
+        * rewrite Hk. cbn. rewrite app_nil_r, A. split; auto.
+    - (* OInsert *)
+      destruct (match loc with
+                | BEnd => Some LEnd | BIndex i => Some (LIndex i) | BFromBack i => Some (LFromBack i)
+                | BAfter r => match b_target (get_bar s r) with TMulti i => Some (LAfter i) | _ => None end
+                | BBefore r => match b_target (get_bar s r) with TMulti i => Some (LBefore i) | _ => None end
+                end) as [l|]; [|apply StepMp_nil; reflexivity].
+      destruct (ms_insert (s_mp s) l) as [[m1 idx]|] eqn:Hi; [|apply StepMp_nil; reflexivity].
+      cbn [fst]. unfold bar_set_target. change (get_bar (set_s_mp s m1) b) with (get_bar s b).
+      cbn [s_mp set_s_mp s_calls].
+      destruct (b_target (get_bar s b)) as [|tg|idx0] eqn:Ht.
+      + unfold StepMp. cbn [MultiSpec.mp_run mp_exec1]. rewrite Hi. cbn. auto.
+      + unfold StepMp. cbn [MultiSpec.mp_run mp_exec1]. rewrite Hi. cbn. auto.
+      + unfold StepMp. cbn [MultiSpec.mp_run mp_exec1]. rewrite Hi.
+        destruct (ms_draw W H fails (ms_store m1 idx0 [] []) true None now (s_calls s)) as [[[m2 e] c'] ok].
+        cbn. rewrite app_nil_r. auto.
+    - (* ORemove *)
+      destruct (b_target (get_bar s b)) as [|tg|idx] eqn:Ht; try (apply StepMp_nil; reflexivity).
+      unfold StepMp. cbn [MultiSpec.mp_run mp_exec1 s_mp upd_bar set_s_bars s_calls].
+      destruct (ms_draw W H fails (ms_remove_idx (s_mp s) idx) true None now (s_calls s)) as [[[m2 e] c'] ok].
+      cbn. rewrite app_nil_r. auto.
+    - (* OMPrintln *)
+      unfold StepMp. cbn [MultiSpec.mp_run mp_exec1].
+      destruct (ms_draw W H fails (s_mp s) true _ now (s_calls s)) as [[[m2 e] c'] ok].
+      cbn. rewrite app_nil_r. auto.
+    - (* OMSuspend *)
+      unfold StepMp. cbn [MultiSpec.mp_run mp_exec1].
+      destruct (ms_suspend W H fails (s_mp s) ws now (s_calls s)) as [[m2 e] c'].
+      cbn. rewrite app_nil_r. auto.
+    - (* OMClear *)
+      unfold StepMp. cbn [MultiSpec.mp_run mp_exec1].
+      destruct (ms_clear W H fails (s_mp s) (s_calls s)) as [[[m2 e] c'] ok].
+      cbn. rewrite app_nil_r. auto.
+    - (* OSetAlign *)
+      unfold StepMp. cbn. auto.
+  Qed.
+End StepMp2.
+
+(* ------------------------------------------------------------------ what a step does to the bar records *)
+Section StepBars.
+  Variable W H : N.
+  Variable fails : N -> bool.
+  Local Notation step_sys := (step_sys W H fails).
+
+  Lemma bars_pres_calls s c : bars_pres s (set_s_calls s c).
+  Proof. apply bars_pres_refl. reflexivity. Qed.
+
+  Lemma bar_draw_pres s b force now : bars_pres s (fst (bar_draw W H fails s b force now)).
+  Proof.
+    unfold bar_draw. destruct (b_target (get_bar s b)) as [|tg|idx] eqn:Ht.
+    - apply bars_pres_refl. reflexivity.
+    - assert (Hk : forall tg', bars_pres s (upd_bar s b (fun x => set_b_target x (TTerm tg')))).
+      { intros tg' b'. destruct (N.eq_dec b b') as [<-|Hn].
+        - destruct (Nat.lt_ge_cases (N.to_nat b) (length (s_bars s))) as [Hl|Hl].
+          + unfold alive. rewrite get_upd_same by exact Hl. unfold mslot. cbn. rewrite Ht. auto.
+          + rewrite upd_bar_oob by exact Hl. auto.
+        - unfold alive. rewrite get_upd_other by exact Hn. auto. }
+      destruct (tt_allow tg _ now) as [[|] tg1]; cbn [negb]; [|apply Hk].
+      destruct (term_draw W H fails tg1 _ _) as [[[tg2 e] c'] ok]. cbn [fst].
+      eapply bars_pres_trans; [apply Hk | apply bars_pres_calls].
+    - destruct (ms_draw W H fails _ _ None now (s_calls s)) as [[[m2 e] c'] ok]. apply bars_pres_refl. reflexivity.
+  Qed.
+
+  Lemma upd_draw_pres s b f force now : keeps_slot f ->
+    bars_pres s (fst (bar_draw W H fails (upd_bar s b f) b force now)).
+  Proof. intros Hf. eapply bars_pres_trans; [apply upd_bar_pres, Hf | apply bar_draw_pres]. Qed.
+
+  Lemma finish_upd_keeps k : keeps_slot (finish_upd k).
+  Proof. intros x. destruct k; cbn; destruct (b_len x); auto. Qed.
+
+  Lemma bar_finish_pres s b k now : bars_pres s (fst (bar_finish W H fails s b k now)).
+  Proof.
+    unfold bar_finish.
+    change (fun x : bar => match k with
+                           | FAndLeave => _ | FWithMessage m1 => _ | FAndClear => _
+                           | FAbandon => _ | FAbandonWithMessage m2 => _ end) with (finish_upd k).
+    apply upd_draw_pres, finish_upd_keeps.
+  Qed.
+
+  Definition structural (o : op) : bool :=
+    match o with OInsert _ _ | ORemove _ | ODrop _ => true | _ => false end.
+
+  Lemma step_bars_pres s now o : structural o = false -> bars_pres s (step_sys s now o).
+  Proof.
+    intros Hs. unfold step_sys.
+    destruct o; try discriminate Hs; cbn [step fst];
+      try (apply upd_draw_pres; intros x; split; reflexivity);
+      try apply bar_draw_pres; try apply bar_finish_pres;
+      try (apply upd_bar_pres; intros x; split; reflexivity);
+      try (apply bars_pres_refl; reflexivity).
+    all: try (unfold bar_pos_update;
+      match goal with |- context [ap_allow ?a ?b] => destruct (ap_allow a b) as [[|] ap'] end;
+      [ unfold bar_tick; eapply bars_pres_trans; [|apply upd_draw_pres; intros x; split; reflexivity];
+        eapply bars_pres_trans; apply upd_bar_pres; intros x; split; reflexivity
+      | cbn [fst]; eapply bars_pres_trans; apply upd_bar_pres; intros x; split; reflexivity ]).
+    - (* OPrintln *)
+      unfold bar_println. destruct (b_target (get_bar s b)) as [|tg|idx] eqn:Ht.
+      + apply bars_pres_refl. reflexivity.
+      + destruct (term_draw W H fails tg _ _) as [[[tg2 e] c'] ok]. cbn [fst].
+        eapply bars_pres_trans; [|apply bars_pres_calls].
+        intros b'. destruct (N.eq_dec b b') as [<-|Hn].
+        * destruct (Nat.lt_ge_cases (N.to_nat b) (length (s_bars s))) as [Hl|Hl].
+          -- unfold alive. rewrite get_upd_same by exact Hl. unfold mslot. cbn. rewrite Ht. auto.
+          -- rewrite upd_bar_oob by exact Hl. auto.
+        * unfold alive. rewrite get_upd_other by exact Hn. auto.
+      + destruct (ms_draw W H fails _ true None now (s_calls s)) as [[[m2 e] c'] ok]. apply bars_pres_refl. reflexivity.
+    - (* OSuspend *)
+      unfold bar_suspend. destruct (b_target (get_bar s b)) as [|tg|idx] eqn:Ht.
+      + destruct (emit_each fails (s_calls s) (map TLine ws)) as [e c']. apply bars_pres_refl. reflexivity.
+      + destruct (term_draw W H fails tg [] (s_calls s)) as [[[tg1 e1] c1] ok1].
+        destruct (emit_each fails c1 (map TLine ws)) as [e2 c2].
+        match goal with |- context [bar_draw W H fails ?s1 b true now] =>
+          pose proof (bar_draw_pres s1 b true now) as P; destruct (bar_draw W H fails s1 b true now) as [s2 e3] end.
+        cbn [fst] in *. eapply bars_pres_trans; [|exact P].
+        eapply bars_pres_trans; [|apply bars_pres_calls].
+        intros b'. destruct (N.eq_dec b b') as [<-|Hn].
+        * destruct (Nat.lt_ge_cases (N.to_nat b) (length (s_bars s))) as [Hl|Hl].
+          -- unfold alive. rewrite get_upd_same by exact Hl. unfold mslot. cbn. rewrite Ht. auto.
+          -- rewrite upd_bar_oob by exact Hl. auto.
+        * unfold alive. rewrite get_upd_other by exact Hn. auto.
+      + destruct (ms_suspend W H fails (s_mp s) ws now (s_calls s)) as [[m2 e] c']. apply bars_pres_refl. reflexivity.
+    - destruct (ms_draw W H fails (s_mp s) true _ now (s_calls s)) as [[[m2 e] c'] ok]. apply bars_pres_refl. reflexivity.
+    - destruct (ms_suspend W H fails (s_mp s) ws now (s_calls s)) as [[m2 e] c']. apply bars_pres_refl. reflexivity.
+    - destruct (ms_clear W H fails (s_mp s) (s_calls s)) as [[[m2 e] c'] ok]. apply bars_pres_refl. reflexivity.
+  Qed.
+End StepBars.
+
+Section NonStruct.
+  Variable W H : N.
+  Variable fails : N -> bool.
+  Local Notation mp_run := (mp_run W H fails).
+
+  Lemma MTrans_refl m : CoreInv m -> MTrans m m false.
+  Proof. intros CI. apply MTrans_same; auto. repeat split. Qed.
+
+  Lemma store_draw_trans m idx texts bars force extra now c : CoreInv m -> In idx (ms_order m) ->
+    MTrans m (fst (fst (mp_run now m c [AStore idx texts bars; ADraw force extra])))
+           (ms_attempt W (ms_store m idx texts bars) force extra now).
+  Proof.
+    intros CI Hi. cbn [MultiSpec.mp_run mp_exec1].
+    pose proof (ms_store_trans m idx texts bars CI Hi) as T1.
+    pose proof (ms_draw_trans W H fails (ms_store m idx texts bars) force extra now c (mt_core _ _ _ T1)) as T2.
+    unfold fst4 in T2. destruct (ms_draw W H fails _ force extra now c) as [[[m2 e] c'] ok]. cbn [fst] in *.
+    eapply MTrans_trans; eauto.
+  Qed.
+
+  Lemma draw_actions_trans s s1 b force now c :
+    MInv s -> alive s b = true -> b_target (get_bar s1 b) = b_target (get_bar s b) -> s_mp s1 = s_mp s ->
+    exists r, MTrans (s_mp s) (fst (fst (mp_run now (s_mp s) c (draw_actions W s1 b force)))) r.
+  Proof.
+    intros MI Ha Ht Hm. unfold draw_actions. rewrite Ht.
+    destruct (b_target (get_bar s b)) as [|tg|idx] eqn:Htb.
+    - exists false. apply MTrans_refl, MInv_core, MI.
+    - exists false. apply MTrans_refl, MInv_core, MI.
+    - eexists. rewrite Hm. apply store_draw_trans; [apply MInv_core, MI|]. eapply (mi_alive s MI); eauto.
+  Qed.
+
+  Lemma single_draw_trans m force extra now c : CoreInv m ->
+    MTrans m (fst (fst (mp_run now m c [ADraw force extra]))) (ms_attempt W m force extra now).
+  Proof.
+    intros CI. cbn [MultiSpec.mp_run mp_exec1].
+    pose proof (ms_draw_trans W H fails m force extra now c CI) as T. unfold fst4 in T.
+    destruct (ms_draw W H fails m force extra now c) as [[[m2 e] c'] ok]. exact T.
+  Qed.
+
+  Lemma single_suspend_trans m ws now c : CoreInv m ->
+    MTrans m (fst (fst (mp_run now m c [ASuspend ws]))) (suspend_attempt W H fails m now c).
+  Proof.
+    intros CI. cbn [MultiSpec.mp_run mp_exec1].
+    pose proof (ms_suspend_trans W H fails m ws now c CI) as T.
+    destruct (ms_suspend W H fails m ws now c) as [[m2 e] c']. exact T.
+  Qed.
+
+  Lemma op_ok_alive s o b : op_ok s o = true -> op_bar o = Some b -> alive s b = true.
+  Proof. unfold op_ok. intros Hk Hb. rewrite Hb in Hk. apply andb_prop in Hk. tauto. Qed.
+
+  Lemma nonstruct_trans s now o : MInv s -> op_ok s o = true -> structural o = false ->
+    exists r, MTrans (s_mp s) (fst (fst (mp_run now (s_mp s) (s_calls s) (op_actions W s now o)))) r.
+  Proof.
+    intros MI Hk Hs. pose proof (MInv_core s MI) as CI.
+    assert (Hal : forall b, op_bar o = Some b -> alive s b = true) by (intros b; apply op_ok_alive; exact Hk).
+    destruct o; try discriminate Hs; cbn [op_actions];
+      try (exists false; apply MTrans_refl; exact CI);
+      try (apply draw_actions_trans; [exact MI | apply Hal; reflexivity | apply target_upd; intros x; reflexivity | reflexivity]).
+    all: try (unfold pos_actions;
+      match goal with |- context [ap_allow ?a ?b] => destruct (ap_allow a b) as [[|] ap'] end;
+      [ unfold tick_actions; apply draw_actions_trans;
+        [exact MI | apply Hal; reflexivity | rewrite !target_upd by (intros x; reflexivity); reflexivity | reflexivity]
+      | exists false; apply MTrans_refl; exact CI ]).
+    - (* OPrintln *)
+      destruct (b_target (get_bar s b)) as [|tg|idx] eqn:Ht; try (exists false; apply MTrans_refl; exact CI).
+      eexists. apply store_draw_trans; [exact CI|]. eapply (mi_alive s MI); [apply Hal; reflexivity | exact Ht].
+    - (* OSuspend *)
+      destruct (b_target (get_bar s b)) as [|tg|idx] eqn:Ht; try (exists false; apply MTrans_refl; exact CI).
+      + exists false. cbn [MultiSpec.mp_run mp_exec1].
+        destruct (emit_each fails (s_calls s) (map TLine ws)) as [e c']. apply MTrans_refl; exact CI.
+      + eexists. apply single_suspend_trans; exact CI.
+    - (* OFinish *) unfold finish_actions. apply draw_actions_trans;
+        [exact MI | apply Hal; reflexivity | apply target_upd; intros x; destruct k; cbn; destruct (b_len x); reflexivity | reflexivity].
+    - unfold finish_actions. apply draw_actions_trans;
+        [exact MI | apply Hal; reflexivity | apply target_upd; intros x; destruct (b_on_finish (get_bar s b)); cbn; destruct (b_len x); reflexivity | reflexivity].
+    - apply draw_actions_trans; [exact MI | apply Hal; reflexivity | reflexivity | reflexivity].
+    - apply draw_actions_trans; [exact MI | apply Hal; reflexivity | reflexivity | reflexivity].
+    - eexists. apply single_draw_trans; exact CI.
+    - eexists. apply single_suspend_trans; exact CI.
+    - exists false. cbn [MultiSpec.mp_run mp_exec1].
+      pose proof (ms_clear_trans W H fails (s_mp s) (s_calls s) CI) as T. unfold fst4 in T.
+      destruct (ms_clear W H fails (s_mp s) (s_calls s)) as [[[m2 e] c'] ok]. exact T.
+    - exists false. cbn. apply MTrans_same; auto; repeat split.
+  Qed.
+End NonStruct.
+
+(* ------------------------------------------------------------------ remove / insert / drop *)
+Lemma NoDup_map_inj {A B} (f : A -> B) l x y : NoDup (map f l) -> In x l -> In y l -> f x = f y -> x = y.
+Proof.
+  induction l as [|z r IH]; cbn; [tauto|]. intros Hn Hx Hy He.
+  inversion Hn as [|? ? Hz Hr]; subst.
+  destruct Hx as [->|Hx], Hy as [->|Hy]; auto.
+  - exfalso. apply Hz. rewrite He. apply in_map. exact Hy.
+  - exfalso. apply Hz. rewrite <- He. apply in_map. exact Hx.
+Qed.
+
+Lemma Refines_inj s a x y : MInv s -> Refines s a -> In x (a_order a) -> In y (a_order a) ->
+  slot_of s x = slot_of s y -> x = y.
+Proof.
+  intros MI RF. apply NoDup_map_inj. rewrite <- (rf_order s a RF). apply (mi_nd_order s MI).
+Qed.
+
+Lemma Refines_NoDup s a : MInv s -> Refines s a -> NoDup (a_order a).
+Proof.
+  intros MI RF. pose proof (mi_nd_order s MI) as Hn. rewrite (rf_order s a RF) in Hn.
+  apply NoDup_map_inv in Hn. exact Hn.
+Qed.
+
+Lemma slot_of_target s b i : b_target (get_bar s b) = TMulti i -> slot_of s b = i /\ is_member s b = true.
+Proof. intros Ht. unfold slot_of, is_member. rewrite Ht. auto. Qed.
+
+Lemma MInv_of s : CoreInv (s_mp s) ->
+  (forall b i, alive s b = true -> b_target (get_bar s b) = TMulti i ->
+               In i (ms_order (s_mp s)) /\ zflag (s_mp s) i = false) ->
+  (forall b1 b2 i, alive s b1 = true -> alive s b2 = true ->
+               b_target (get_bar s b1) = TMulti i -> b_target (get_bar s b2) = TMulti i -> b1 = b2) ->
+  MInv s.
+Proof. intros [A B C D E F] G I. constructor; auto. Qed.
+
+Lemma remove_sim s a b idx :
+  MInv s -> Refines s a -> alive s b = true -> b_target (get_bar s b) = TMulti idx ->
+  let s1 := set_s_mp (upd_bar s b (fun x => set_b_target x THidden)) (ms_remove_idx (s_mp s) idx) in
+  MInv s1 /\ Refines s1 (a_struct a (ORemove b)).
+Proof.
+  intros MI RF Ha Ht s1. pose proof (MInv_core s MI) as CI.
+  pose proof (alive_inrange s b Ha) as Hl.
+  destruct (mi_alive s MI b idx Ha Ht) as [Hio Hzf].
+  assert (Hnf : ~ In idx (ms_free (s_mp s))) by (apply (mi_disj s MI); exact Hio).
+  destruct (remove_idx_fields (s_mp s) idx Hnf) as (Em & Ef & Eo).
+  assert (Hgb : get_bar s1 b = set_b_target (get_bar s b) THidden).
+  { unfold s1, get_bar. cbn [s_bars set_s_mp]. fold (get_bar (upd_bar s b (fun x => set_b_target x THidden)) b).
+    apply get_upd_same. exact Hl. }
+  assert (Hgo : forall b', b' <> b -> get_bar s1 b' = get_bar s b').
+  { intros b' Hn. unfold s1, get_bar. cbn [s_bars set_s_mp].
+    fold (get_bar (upd_bar s b (fun x => set_b_target x THidden)) b'). apply get_upd_other. congruence. }
+  assert (Hbo : In b (a_order a)).
+  { apply (rf_alive s a RF); [exact Ha|]. apply slot_of_target in Ht. tauto. }
+  assert (Hsb : slot_of s b = idx) by (apply slot_of_target in Ht; tauto).
+  assert (Hz' : forall i, i <> idx -> zflag (s_mp s1) i = zflag (s_mp s) i).
+  { intros i Hn. unfold zflag, s1. cbn [s_mp set_s_mp]. rewrite Em. rewrite nthN_updN_neq; auto. }
+  split.
+  - apply MInv_of.
+    + unfold s1. cbn [s_mp set_s_mp]. apply remove_idx_core; auto.
+    + intros b' i Ha' Ht'. assert (Hn : b' <> b).
+      { intros ->. rewrite Hgb in Ht'. discriminate. }
+      unfold alive in Ha'. rewrite Hgo in Ha', Ht' by exact Hn.
+      destruct (mi_alive s MI b' i Ha' Ht') as [Hi Hz].
+      assert (Hne : i <> idx).
+      { intros ->. apply Hn. eapply (mi_distinct s MI); eauto. }
+      split; [|rewrite Hz' by exact Hne; exact Hz].
+      unfold s1. cbn [s_mp set_s_mp]. rewrite Eo. apply filter_neq_In. auto.
+    + intros b1 b2 i A1 A2 T1 T2.
+      assert (N1 : b1 <> b) by (intros ->; rewrite Hgb in T1; discriminate).
+      assert (N2 : b2 <> b) by (intros ->; rewrite Hgb in T2; discriminate).
+      unfold alive in A1, A2. rewrite Hgo in A1, A2, T1, T2 by assumption.
+      eapply (mi_distinct s MI); eauto.
+  - destruct RF as [R1 R2 R3 R4 R5 R6]. cbn [a_struct].
+    assert (Hsl : forall y, y <> b -> slot_of s1 y = slot_of s y /\ is_member s1 y = is_member s y /\ alive s1 y = alive s y).
+    { intros y Hn. unfold slot_of, is_member, alive. rewrite Hgo by exact Hn. auto. }
+    constructor; cbn [a_order a_dropped].
+    + unfold s1 at 1. cbn [s_mp set_s_mp]. rewrite Eo, R1, <- Hsb.
+      rewrite filter_map_inj.
+      * apply map_ext_in. intros y Hy. apply filter_neq_In in Hy. symmetry. apply Hsl. tauto.
+      * intros y Hy He. eapply NoDup_map_inj; eauto. rewrite <- R1. apply (mi_nd_order s MI).
+    + intros y Hy. apply filter_neq_In in Hy. destruct (Hsl y) as (_ & -> & _); [tauto|]. apply R2. tauto.
+    + intros y Hay Hmy. assert (Hn : y <> b).
+      { intros ->. unfold is_member in Hmy. rewrite Hgb in Hmy. discriminate. }
+      destruct (Hsl y Hn) as (_ & Em' & Ea'). rewrite Ea' in Hay. rewrite Em' in Hmy.
+      apply filter_neq_In. auto.
+    + intros y Hy. apply filter_neq_In in Hy. destruct (Hsl y) as (_ & _ & ->); [tauto|]. apply R4. tauto.
+    + intros y Hy. destruct (N.eq_dec y b) as [->|Hn].
+      * pose proof (R5 b Hy). congruence.
+      * destruct (Hsl y Hn) as (_ & _ & ->). auto.
+    + intros y Hy. apply filter_neq_In in Hy. destruct Hy as [Hy Hn].
+      destruct (Hsl y Hn) as (-> & _ & ->).
+      fold (zflag (s_mp s1) (slot_of s y)). rewrite Hz'; [apply R6; exact Hy|].
+      intros He. apply Hn. eapply NoDup_map_inj; eauto.
+      * rewrite <- R1. apply (mi_nd_order s MI).
+      * congruence.
 Qed.
